@@ -35,12 +35,14 @@ def check_active(spec, ctx):
     ev_arr = np.asarray(ctx.sut(bspline.active_ev, kv, arr, what="active_ev(array)"))
     ctx.require("shape", ev_arr.shape == (p + 1, len(xs)), "active_ev shape %r" % (ev_arr.shape,))
     cls = set()
+    kept = []       # (what, live result object, copy taken when it was returned): results must not change afterwards
     for m, x in enumerate(xs):
         first, D, Df, Sf = _exact_table(kn, p, x, nder)
         got_first = int(ctx.sut(kv.first_active_at, x, what="first_active_at"))
         ctx.equal("first_active", got_first, first, "first active index at %r" % x)
         res = np.asarray(ctx.sut(bspline.active_deriv, kv, x, nder, what="active_deriv(scalar)"))
         ctx.require("shape", res.shape == (nder + 1, p + 1), "scalar active_deriv shape %r" % (res.shape,))
+        kept.append(("active_deriv(kv, %r, %d)" % (x, nder), res, res.copy()))
         for k in range(nder + 1):
             Sk = float(np.max(Sf[k])) if k <= p else 0.0
             tol = 16 * (p + 1) * EPS * Sk
@@ -60,7 +62,18 @@ def check_active(spec, ctx):
         ev1 = np.asarray(ctx.sut(bspline.active_ev, kv, x, what="active_ev(scalar)"))
         ctx.close("active_ev", ev1, Df[0], rtol=0, atol=16 * (p + 1) * EPS)
         ctx.close("active_ev_array", ev_arr[:, m], Df[0], rtol=0, atol=16 * (p + 1) * EPS)
+        kept.append(("active_ev(kv, %r)" % (x,), ev1, ev1.copy()))
         cls |= gk.point_classes(kvs, x)
+    kept.append(("active_deriv(kv, array, %d)" % nder, res_arr, res_arr.copy()))
+    # a second knot vector of the same degree evaluated in between (shared work arrays would be keyed by degree)
+    kv2 = bspline.make_knots(p, 0.0, 1.0, 3)
+    ctx.sut(bspline.active_deriv, kv2, 0.4, nder, what="active_deriv(other knot vector)")
+    for what, live, snap in kept:
+        if not np.array_equal(np.asarray(live), snap):
+            raise Violation("result_overwritten", "the array returned by %s changed after later evaluations: %r -> %r"
+                            % (what, snap.ravel()[:6].tolist(), np.asarray(live).ravel()[:6].tolist()))
+    if len(xs) >= 2:
+        ctx.flag("results_kept_across_calls")
     ctx.flag(*cls)
     _br = kvs["breaks"]
     _sp = [b - a for a, b in zip(_br[:-1], _br[1:])]
